@@ -33,3 +33,8 @@ add("C16","exploration",
  "Held on the generated messages and streams counted in the evidence.",
  "Trusted: the SGR-strip regexp; both sides are stripped when the message itself contains ESC.",
  "DESIGN.md §2 C16")
+add("C08","exploration",
+ "runtime monitoring: seeded filesystem-layout/rule/request generator; HasFilePermission verdicts observed in worker processes on real directory trees, and real dcat sessions over SSH against servers configured with the rules (unique content token per file); oracle = independent statement of the rule semantics on the EvalSymlinks+Abs path",
+ "Held on the generated (tree, rules, request) triples counted in the evidence; both directions (allowed served, denied discloses nothing).",
+ "Trusted: filepath.EvalSymlinks/Abs/Glob, Go regexp; static layouts (no TOCTOU claim).",
+ "DESIGN.md §2 C08")
